@@ -434,7 +434,7 @@ def split(op, a, b, lo, n, step, parts):
 
 def oracle_lines(rng, tier, mode, for_search=False):
     """(line, key, count) triples for profile `mode`; key = (dir, fmt, fw)"""
-    quick = tier == "quick" and not for_search
+    quick = tier == "quick"
     out = []
     rel = mode == 1
     for f in FORMATS:
@@ -470,6 +470,17 @@ def oracle_lines(rng, tier, mode, for_search=False):
                 step = (span // cnt) | 1
                 for base in (0, 1 << 63):
                     out += [(l, key, c) for l, c in split("of2i", 64, CODE[f], base + rng.below(step), span // step - 1, step, 1 if quick else 4)]
+    # the structured values (rounding ties of both parities, truncation steps, extremes), one line each
+    rs = rng.fork("structured")
+    for f in FORMATS:
+        for fw in (32, 64):
+            for v in structured_for(("i2f", f, fw), rs):
+                out.append((f"oi2f {CODE[f]} {fw} {v} 1 1", ("i2f", f, fw), 1))
+            for b in structured_for(("f2i", f, fw), rs):
+                out.append((f"of2i {fw} {CODE[f]} {b} 1 1", ("f2i", f, fw), 1))
+    for fw in (32, 64):
+        for b in structured_for(("f2f", None, fw), rs):
+            out.append((f"of2f {fw} 0 {b} 1 1", ("f2f", None, fw), 1))
     for fw in (32, 64):
         key = ("f2f", None, fw)
         if fw == 32:
